@@ -19,7 +19,7 @@ from ..facts import call_name, norm
 from ..linters import Linters
 from . import shared
 
-BASELINE = {"B1": {"max_undecided": 8}, "B3": {"max_undecided": 8}}
+BASELINE = {"B1": {"max_undecided": 3}, "B3": {"max_undecided": 2}}   # today 2 and 1: one more untraceable sink each is tolerated, beyond that the rule no longer decides enough
 
 
 def check(run, ctx):
@@ -164,6 +164,26 @@ def check(run, ctx):
                     run.finding(B6, f.qual.replace("src.linters.", ""), f"parent-line-for-part:{culprit[0]}<-{b}", f"`{norm(c)[:90]}` passes `{culprit[0]}`, a part of `{b}`, together with the line of `{b}` itself: whatever is recorded for `{culprit[0]}` gets the line where `{b}` starts, which differs as soon as the construct spans several lines", f"{f.module.rel}:{c.lineno}")
                 else:
                     run.ok(B6, sym, f"line of `{b}`; no argument is a part of `{b}`")
+
+    B7 = run.rule("B7", "the `line` of a class/struct metrics record (SRP) is the start line of the class node itself: <node>.lineno or <node>.start_point[0] + 1 with <node> the analysed class", floor=3,
+                  decides="the SRP violation sits on the `class` / `struct` header line, where the quoted name is - not on a decorator or attribute line above it")
+    from ..util import expand_locals as _xl
+    for f in sorted(ctx.repo.funcs_in("src.linters.srp."), key=lambda x: x.qual):
+        if f.parent is not None:
+            continue
+        params = {a.arg for a in f.node.args.args}
+        for d in [n for n in ast.walk(f.node) if isinstance(n, ast.Dict)]:
+            for k, v in zip(d.keys, d.values):
+                if isinstance(k, ast.Constant) and k.value == "line":
+                    e = _xl(f.node, v)
+                    txt = ast.unparse(e)
+                    base = txt.replace(".start_point[0] + 1", "").replace(".lineno", "")
+                    good = (txt.endswith(".lineno") or txt.endswith(".start_point[0] + 1")) and base in params
+                    sym = f"{f.qual.replace('src.linters.', '')}:line"
+                    if good:
+                        run.ok(B7, sym, f"line = {txt}")
+                    else:
+                        run.finding(B7, f.qual.replace("src.linters.", ""), f"record-line:{txt[:60]}", f"the metrics record takes its line from `{txt[:80]}`, not from the start of the analysed class node: for a class with decorators / attributes above it the violation lands on a line that does not show the class name", f"{f.module.rel}:{v.lineno}")
 
     B2 = run.rule("B2", "file-level violations (file-placement, missing header, orphaned header entry) use a constant line >= 1", floor=1)   # the constructions may be shared by one helper
     for sk in sinks:
